@@ -209,7 +209,12 @@ def _usum(self, t, kind, *more):
     it.  It is a constant named after the *syntactic* template (not an uninterpreted function of the
     template's value: a path condition about the arbitrary member must not equate two sums), so two
     executions agree on it exactly when they sum the same term over the same team."""
-    return SymNum(z3.Real(_usum_name(self, kind, t, *more)), KFLOAT)
+    name = _usum_name(self, kind, t, *more)
+    c = cur()
+    if not hasattr(c, "usum_log") or getattr(c, "usum_log_path", None) is not c.pc:
+        c.usum_log, c.usum_log_path = [], c.pc
+    c.usum_log.append((name, (t,) + tuple(more)))
+    return SymNum(z3.Real(name), KFLOAT)
 
 
 SymTeam._usum = _usum
